@@ -16,7 +16,7 @@ import (
 func init() {
 	Register(&Property{
 		ID: "C04",
-		Explanation: "Decides column-level agreement between what is written and what is read/matched, and that handlers write only validated tuples: (R04.1) the internal field written to a column by FromInternal/insertSubject is the field ToInternal reads from it, and the two subject kinds set/clear complementary columns; (R04.2) the INSERT's column list, the db tags of the values bound and the placeholders per row agree position by position; (R04.3) every predicate 'col = ?' (pop fragments, the DELETE builder, the traversal SELECT and its fragment function) is bound to the internal field that R04.1 maps to col, a subject id matches exactly {subject_id} and a subject set exactly the three subject_set_* columns, extra conjuncts are only IS NULL on the complementary columns; (R04.4) in whereQuery every Where is guarded by the non-nil test of the query field it binds and every query field has one; (R04.5) the DELETE is one conjunction per tuple over namespace, object, relation and subject, OR-ed across tuples, AND the network id; (R04.6) every write handler passes to the storage manager only what Mapper().FromTuple returned, and FromTuple appends a tuple only after an error-checked namespace lookup (also of the subject set's namespace) and Validate; (R04.7) persistence/sql keeps no process-local mutable state (caches) besides the network id set at start-up, so what a statement sees is the database. " +
+		Explanation: "Decides column-level agreement between what is written and what is read/matched, and that handlers write only validated tuples: (R04.1) the internal field written to a column by FromInternal/insertSubject is the field ToInternal reads from it, and the two subject kinds set/clear complementary columns; (R04.2) the INSERT's column list, the db tags of the values bound and the placeholders per row agree position by position; (R04.3) every predicate 'col = ?' (pop fragments, the DELETE builder, the traversal SELECT and its fragment function) is bound to the internal field that R04.1 maps to col, a subject id matches exactly {subject_id} and a subject set exactly the three subject_set_* columns, extra conjuncts are only IS NULL on the complementary columns; (R04.4) in whereQuery every Where is guarded by the non-nil test of the query field it binds and every query field has one; (R04.5) the DELETE is one conjunction per tuple over namespace, object, relation and subject, OR-ed across tuples, AND the network id; (R04.6) every write handler passes to the storage manager only what Mapper().FromTuple returned, and FromTuple appends a tuple only after an error-checked namespace lookup (also of the subject set's namespace) and Validate; (R04.11) in the transact/patch handlers a delta's tuple is collected only under a test of that delta's action (never positionally); (R04.10) every internal consumer of the paginated listing either hands the page token on or loops until it is empty, so nothing that means 'all matching relationships' acts on the first page only; (R04.9) a multi-tuple write or delete iterates its input whole or in tiles that cover it, so every input tuple reaches a statement; (R04.7) persistence/sql keeps no process-local mutable state (caches) besides the network id set at start-up, so what a statement sees is the database. " +
 			"Not decided: database or pop semantics, read-your-writes across connections, the multiset behaviour over histories.",
 		Assumptions: []string{
 			"the table's CHECK constraint makes the IS NULL conjuncts on complementary subject columns always true for stored rows",
@@ -403,6 +403,17 @@ func runC04(c *Ctx) {
 	r047(c, "R04.7")
 	// R04.8: a delete/insert takes effect in the network of the request (same rule as R06.2/R06.3)
 	rawNetworkScope(c, m, "R04.8", "R04.8")
+	// R04.9: a multi-tuple write/delete hands every input tuple to a statement (same rule as R05.6)
+	wo := map[*ssa.Function]bool{}
+	for _, s := range p.StmtSites() {
+		if pk := core.FuncPkg(s.Fn); s.Write && !isMigrationOrTestHelper(s.Fn) && pk != nil && pk.Path() == sqlPkgPath {
+			wo[core.Outermost(s.Fn)] = true
+		}
+	}
+	inputTuplesCovered(c, "R04.9", wo)
+	// R04.10: nothing that acts on "all matching relationships" works from a single page of a paginated listing
+	c.R.SubRun(func() { r075(c, "R07.5") }, map[string]string{"R07.5": "R04.10"})
+	r0411(c)
 }
 
 // ---- R04.6 handlers write only mapper-validated tuples ------------------------------------------
@@ -765,4 +776,110 @@ func checkTraversalSelect(c *Ctx, m *SQLModel, fname string, rs *RawStmt, st *co
 	r.Check(len(bad) == 0, rule, fname, "traversal SELECT "+smp.Desc, p.Pos(rs.Site),
 		"outer predicates bind the start tuple's namespace/object/relation, the sub-select correlates the outer row's subject set and matches the requested subject exactly, aliases match the row struct",
 		strings.Join(dedupe(bad), "; "))
+}
+
+// ---- R04.11 whether a delta's tuple is inserted or deleted depends on that delta's action -------
+
+// r0411: in the transact/patch handlers every append of a tuple taken from a
+// delta (a value with both an Action and a RelationTuple field) is control
+// dependent on a comparison of that same delta's Action. A list that collects
+// the tuples regardless of their action and is split later (by a count, by
+// position) pairs tuples with the wrong operation for some orders of the
+// request.
+func r0411(c *Ctx) {
+	p, r := c.P, c.R
+	n := 0
+	isDelta := func(t types.Type) bool {
+		if pt, ok := t.Underlying().(*types.Pointer); ok {
+			t = pt.Elem()
+		}
+		st, ok := t.Underlying().(*types.Struct)
+		if !ok {
+			return false
+		}
+		hasA, hasT := false, false
+		for i := 0; i < st.NumFields(); i++ {
+			switch st.Field(i).Name() {
+			case "Action":
+				hasA = true
+			case "RelationTuple":
+				hasT = true
+			}
+		}
+		return hasA && hasT
+	}
+	for _, fn := range p.KetoFuncs("internal/relationtuple") {
+		core.Instrs(fn, func(b *ssa.BasicBlock, _ int, ins ssa.Instruction) {
+			call, ok := ins.(*ssa.Call)
+			if !ok {
+				return
+			}
+			bi, ok := call.Call.Value.(*ssa.Builtin)
+			if !ok || bi.Name() != "append" || len(call.Call.Args) < 2 {
+				return
+			}
+			// elements appended: stores into the variadic array
+			var deltas []ssa.Value
+			for _, el := range variadicElems(call.Call.Args[1]) {
+				seen := map[ssa.Value]bool{}
+				var walk func(v ssa.Value, d int)
+				walk = func(v ssa.Value, d int) {
+					if v == nil || seen[v] || d > 6 {
+						return
+					}
+					seen[v] = true
+					switch x := v.(type) {
+					case *ssa.UnOp:
+						if fa, ok := x.X.(*ssa.FieldAddr); ok && x.Op == token.MUL {
+							if fv := fieldVarOf(fa); fv != nil && fv.Name() == "RelationTuple" && isDelta(fa.X.Type()) {
+								deltas = append(deltas, fa.X)
+								return
+							}
+						}
+						walk(x.X, d+1)
+					case *ssa.Extract:
+						walk(x.Tuple, d+1)
+					case *ssa.Call:
+						for _, a := range x.Call.Args {
+							walk(a, d+1)
+						}
+					case *ssa.MakeInterface:
+						walk(x.X, d+1)
+					case *ssa.ChangeInterface:
+						walk(x.X, d+1)
+					case *ssa.Phi:
+						for _, e := range x.Edges {
+							walk(e, d+1)
+						}
+					}
+				}
+				walk(el, 0)
+			}
+			for _, dv := range deltas {
+				n++
+				dep := false
+				for _, cd := range core.CondsAt(b) {
+					_, x, y, ok := core.BinCmp(cd.V)
+					if !ok {
+						continue
+					}
+					for _, side := range []ssa.Value{x, y} {
+						if u, ok := core.ValueOrigin(side).(*ssa.UnOp); ok && u.Op == token.MUL {
+							if fa, ok := u.X.(*ssa.FieldAddr); ok {
+								if fv := fieldVarOf(fa); fv != nil && fv.Name() == "Action" && fa.X == dv {
+									dep = true
+								}
+							}
+						}
+					}
+				}
+				r.Check(dep, "R04.11", core.FuncName(fn), "tuple of a delta collected", p.Pos(call.Pos()),
+					"the tuple is collected under a test of its own delta's action",
+					"the tuple of a delta is collected without a test of that delta's action: which operation it receives is decided elsewhere (by position or count), so for some orders of the request a tuple is inserted although its delta says delete, or the reverse")
+			}
+		})
+	}
+	if n < 2 {
+		r.Undecide("R04.11", "", "delta tuples collected", "", fmt.Sprintf("%d found (floor 2: REST patch, gRPC transact)", n))
+	}
 }
